@@ -280,7 +280,9 @@ impl Prop for C09 {
                     Dir::Neg => e.scale * sc.dir() < 0.0,
                 };
                 let covered = (s.t.last().copied().unwrap_or(sc.x0) - c) * sc.dir() > 0.0;
-                if strictly_inside && !on_endpoint && crossing_dir_ok && covered {
+                // (an event function that is exactly zero at an accepted endpoint - e.g. because
+                // scale*(t-c) underflows next to the root - is in the zone the property exempts)
+                if strictly_inside && !on_endpoint && crossing_dir_ok && covered && z_steps.is_empty() {
                     cov.bump("single_root_cases");
                     if evs.len() != 1 {
                         v.push(viol(P, "single_root_count", format!("g = {:e}*(t - {:e}) has one root strictly inside the span, not on a step endpoint, but {} events are reported: {:?}", e.scale, c, evs.len(), evs)));
